@@ -87,6 +87,10 @@ package internal
 //   events(...) evarg(...) result panics
 
 //@ func role:flow-wrapper
+//@   ensures [C15,C13] exactly-the-directives-arguments-are-hoisted: hoistedExactlyTheArguments
+//@   ensures [C02,C11,C13] one-job-per-task-and-predicate-of-the-directive: jobsMatchDirective
+//@   ensures [C02] one-result-store-per-results-argument: resultsMatchDirective
+//@   ensures [C03,C15] no-user-function-runs-on-the-calling-goroutine: noUserFunctionOnCaller
 //@   ensures [C15] arguments-hoisted-once-in-source-order-before-generated-code: hoistedAssignedOnce && hoistOrdered && hoistBeforeGenerated
 //@   ensures [C02,C12] shared-cells-have-a-single-writer-and-distinct-types: singleWriter && cellTypesDistinct
 //@   ensures [C01,C12] every-reader-depends-on-the-writer-of-what-it-reads: implies(waitCalled, depsCoverReaders)
@@ -102,6 +106,9 @@ package internal
 //@   ensures [C04] no-escaping-panic: !panics
 
 //@ func role:parallel-wrapper
+//@   ensures [C15,C13] exactly-the-directives-arguments-are-hoisted: hoistedExactlyTheArguments
+//@   ensures [C10,C13] one-job-per-task-slice-map-and-end-hook-of-the-directive: jobsMatchDirective
+//@   ensures [C03,C15] no-user-function-runs-on-the-calling-goroutine: noUserFunctionOnCaller
 //@   ensures [C15] arguments-hoisted-once-in-source-order-before-generated-code: hoistedAssignedOnce && hoistOrdered && hoistBeforeGenerated
 //@   ensures [C12] no-shared-cells-written-twice: singleWriter
 //@   ensures [C10,C05,C06] every-job-enqueued-once-and-wait-called: waitCalled && everyJobEnqueuedOnce
